@@ -472,7 +472,11 @@ class Mitochondria:
         self._check_tool_capabilities(tool_name, tool)
 
         args = [self._compute_node(arg) for arg in tree.body.args]
-        kwargs = {kw.arg: self._compute_node(kw.value) for kw in tree.body.keywords if kw.arg}
+        kwargs = {}
+        for kw in tree.body.keywords:
+            if kw.arg is None:
+                raise ValueError("**kwargs expansion is not supported")
+            kwargs[kw.arg] = self._compute_node(kw.value)
 
         return tool.execute(*args, **kwargs)
 
@@ -550,8 +554,13 @@ class Mitochondria:
                 if func_name in self.SAFE_FUNCTIONS:
                     func = self.SAFE_FUNCTIONS[func_name]
                     args = [self._compute_node(arg) for arg in node.args]
+                    kwargs = {}
+                    for kw in node.keywords:
+                        if kw.arg is None:
+                            raise ValueError("**kwargs expansion is not supported")
+                        kwargs[kw.arg] = self._compute_node(kw.value)
                     if callable(func):
-                        return func(*args)
+                        return func(*args, **kwargs)
                     return func  # Constants like pi, e
                 raise ValueError(f"Unknown function: {func_name}")
             raise ValueError("Complex function calls not supported")
